@@ -59,6 +59,8 @@ type Ctx struct {
 	regexps     map[int]string
 	guardOff    int
 	decodeCache map[string]decodeRes
+	forks       []*FState
+	pendingObs  []pendingOb
 
 	// monitors
 	guards    []*guardRec
@@ -167,41 +169,97 @@ func (c *Ctx) allVars() []*Term {
 	return c.tt.vars
 }
 
-// obligation: bad must be unsatisfiable under pc. If it is satisfiable a violation is recorded.
-// Afterwards ¬bad is added to the path condition.
+// obligation: bad must be unsatisfiable under pc. The query is deferred: all obligations of a case are decided
+// together at the end (flushObligations), one solver call when they all hold. Afterwards ¬bad joins the path condition.
 func (c *Ctx) obligation(st *State, bad *Term, kind, label, msg string) {
 	c.stOblig++
 	if bad.IsFalse() {
 		c.stDischarge++
 		return
 	}
-	conj := append(append([]*Term(nil), st.pc...), bad)
-	tq := time.Now()
-	r, model := c.solver.Check(conj, true, c.tt.vars)
-	if d := time.Since(tq).Seconds(); d > 0.3 && c.verbose {
-		fmt.Fprintf(os.Stderr, "  slow obligation %s (%s): %.2fs result=%d pc=%d\n", label, kind, d, r, len(st.pc))
-	}
-	switch r {
-	case resUnsat:
+	conj := c.tt.AndN(append(append([]*Term(nil), st.pc...), bad)...)
+	if conj.IsFalse() {
 		c.stDischarge++
-	case resUnknown:
-		c.inconclusive("solver unknown on obligation " + label)
-	case resSat:
-		v := &Violation{Label: label, Kind: kind, Msg: msg, Model: model, Choices: append([]choiceRec(nil), c.choiceLog...), Where: c.where()}
-		for _, ch := range v.Choices {
-			v.ChoiceS = append(v.ChoiceS, fmt.Sprintf("%s=%d/%d", ch.name, ch.pick, ch.n))
-		}
-		dup := false
-		for _, o := range c.violations {
-			if o.Label == v.Label && o.Kind == v.Kind {
-				dup = true
-			}
-		}
-		if !dup {
-			c.violations = append(c.violations, v)
-		}
+	} else {
+		c.pendingObs = append(c.pendingObs, pendingOb{conj: conj, kind: kind, label: label, msg: msg, where: c.where()})
 	}
 	st.pc = append(st.pc, c.tt.Not(bad))
+}
+
+type pendingOb struct {
+	conj  *Term
+	kind  string
+	label string
+	msg   string
+	where string
+}
+
+// flushObligations decides the deferred obligations: unsat(OR of all) discharges all of them at once;
+// otherwise the set is bisected to find the violated ones.
+func (c *Ctx) flushObligations() {
+	obs := c.pendingObs
+	c.pendingObs = nil
+	reported := map[string]bool{}
+	var solve func(lo, hi int)
+	solve = func(lo, hi int) {
+		if lo >= hi {
+			return
+		}
+		or := c.tt.F
+		n := 0
+		for i := lo; i < hi; i++ {
+			if reported[obs[i].kind+"|"+obs[i].label] {
+				continue
+			}
+			or = c.tt.Or(or, obs[i].conj)
+			n++
+		}
+		if n == 0 {
+			return
+		}
+		if hi-lo == 1 {
+			tq := time.Now()
+			r, model := c.solver.Check([]*Term{or}, true, c.tt.vars)
+			if d := time.Since(tq).Seconds(); d > 0.5 && c.verbose {
+				fmt.Fprintf(os.Stderr, "  slow obligation %s: %.2fs result=%d\n", obs[lo].label, d, r)
+			}
+			switch r {
+			case resUnsat:
+				c.stDischarge++
+			case resUnknown:
+				c.inconclusive("solver unknown on obligation " + obs[lo].label)
+			case resSat:
+				o := obs[lo]
+				reported[o.kind+"|"+o.label] = true
+				v := &Violation{Label: o.label, Kind: o.kind, Msg: o.msg, Model: model, Choices: append([]choiceRec(nil), c.choiceLog...), Where: o.where}
+				for _, ch := range v.Choices {
+					v.ChoiceS = append(v.ChoiceS, fmt.Sprintf("%s=%d/%d", ch.name, ch.pick, ch.n))
+				}
+				c.violations = append(c.violations, v)
+			}
+			return
+		}
+		tq := time.Now()
+		r, _ := c.solver.Check([]*Term{or}, false, nil)
+		if d := time.Since(tq).Seconds(); d > 0.5 && c.verbose {
+			fmt.Fprintf(os.Stderr, "  obligation batch [%d,%d): %.2fs result=%d\n", lo, hi, d, r)
+		}
+		if r == resUnsat {
+			c.stDischarge += n
+			return
+		}
+		mid := (lo + hi) / 2
+		solve(lo, mid)
+		solve(mid, hi)
+	}
+	const batch = 256
+	for lo := 0; lo < len(obs); lo += batch {
+		hi := lo + batch
+		if hi > len(obs) {
+			hi = len(obs)
+		}
+		solve(lo, hi)
+	}
 }
 
 func (c *Ctx) where() string {
@@ -298,10 +356,11 @@ type FState struct {
 	defers []deferRec
 	key    []int
 	lastChecked *Term
+	spec bool // speculative state (non-ASCII fork of a string iteration): branch feasibility is checked eagerly
 }
 
 func (f *FState) fork() *FState {
-	n := &FState{st: f.st.fork(), fi: f.fi, regs: append([]Value(nil), f.regs...), block: f.block, iters: f.iters, defers: append([]deferRec(nil), f.defers...), key: f.key, lastChecked: f.lastChecked}
+	n := &FState{st: f.st.fork(), fi: f.fi, regs: append([]Value(nil), f.regs...), block: f.block, iters: f.iters, defers: append([]deferRec(nil), f.defers...), key: f.key, lastChecked: f.lastChecked, spec: f.spec}
 	return n
 }
 
@@ -343,8 +402,11 @@ func (c *Ctx) mergeF(a, b *FState) *FState {
 			return nil
 		}
 	}
+	if c.itersDiffer(a.st.heap, b.st.heap) {
+		return nil
+	}
 	st, g := c.mergeStates(a.st, b.st)
-	n := &FState{st: st, fi: a.fi, block: a.block, iters: a.iters, key: a.key}
+	n := &FState{st: st, fi: a.fi, block: a.block, iters: a.iters, key: a.key, spec: a.spec && b.spec}
 	n.regs = make([]Value, len(a.regs))
 	live := a.fi.liveIn[a.block]
 	for i := range a.regs {
@@ -411,4 +473,31 @@ func sortedKeys(m map[string]int) []string {
 	}
 	sort.Strings(ks)
 	return ks
+}
+
+// itersDiffer: do the two heaps hold a string iterator at different positions? Such states are kept apart
+// (merging them would make every later rune a function of the position).
+func (c *Ctx) itersDiffer(a, b *Heap) bool {
+	n := len(a.chunks)
+	if len(b.chunks) < n {
+		n = len(b.chunks)
+	}
+	for ci := 0; ci < n; ci++ {
+		ca, cb := a.chunks[ci], b.chunks[ci]
+		if ca == cb || ca == nil || cb == nil {
+			continue
+		}
+		for k := 0; k < chunkSize; k++ {
+			oa, ob := ca.objs[k], cb.objs[k]
+			if oa == ob || oa == nil || ob == nil {
+				continue
+			}
+			ia, ok1 := oa.v.(*Iter)
+			ib, ok2 := ob.v.(*Iter)
+			if ok1 && ok2 && !ia.isMap && !ib.isMap && ia.pos != ib.pos {
+				return true
+			}
+		}
+	}
+	return false
 }
